@@ -99,6 +99,8 @@ def scalings(rng, c, P, k=3):
 def edge_scalars(rng, n, k=6):
     bits = n.bit_length()
     s = [0, 1, 2, 3, n - 1, n, n + 1, 2 * n - 1, 2 * n, 2 * n + 1, -1, -2, -n, 1 - n]
+    # near a multiple of the order the NAF walk passes through -P, -2P, ... (reduced) and adds the unreduced (x, -y)
+    s += [n - 2, n - 3, n - 4, n + 2, 2 * n - 2, 2 * n - 3, 2 * n - 4, 2 * n + 2, 3 * n - 2, 4 * n - 4, rng.choice([n, 2 * n]) - rng.randrange(2, 40)]
     for _ in range(k):
         b = rng.randrange(1, bits + 2)
         s += [1 << b, (1 << b) - 1]
@@ -115,7 +117,8 @@ def run(ctx):
                 "(table) and plain (NAF) multiplication, random key pairs for ECDH (OpenSSL for named curves), off-curve / "
                 "out-of-range / infinity / other-curve points; non-trivial = distinct case")
     corr, props = [], []
-    smalls = small_curves(23, 2) if quick else small_curves(23, 3) + small_curves(97, 2) + small_curves(211, 1)
+    # group orders 31 and 41 in the quick tier: n = 3 and n = 1 mod 4 take different ways through the NAF digits near n
+    smalls = [small_curves(23, 3)[0], small_curves(23, 3)[2]] if quick else small_curves(23, 3) + small_curves(97, 2) + small_curves(211, 1)
     for c in smalls:
         d = c["spec"]
         pts = [None] + c["pts"]
@@ -139,6 +142,17 @@ def run(ctx):
                 corr.append(f"ec.eq {d} {reps_p[-1]} {reps_q[0]}")
                 if P and Q:
                     corr.append(f"ap.add {d} {P[0]},{P[1]} {Q[0]},{Q[1]}")
+                    # other integer representatives of the same two points (what __neg__ / __mul__ build, what a caller may pass)
+                    pq = c["p"]
+                    ra = rng.choice([(P[0], P[1] - pq), (P[0], P[1] + pq), (P[0] + pq, P[1]), (P[0] - pq, P[1] - pq)])
+                    rb = rng.choice([(Q[0], Q[1] - pq), (Q[0], Q[1] + pq), (Q[0] + pq, Q[1]), (Q[0], Q[1])])
+                    corr.append(f"ap.add {d} {sint(ra[0])},{sint(ra[1])} {sint(rb[0])},{sint(rb[1])}")
+                    # the property is evaluated on the representatives the class builds itself (`__mul__` makes (x, -y)): any y,
+                    # reduced x.  With another representative of x the class compares raw integers and takes the chord formula for
+                    # equal points (ValueError from the inverse) - model and code agree on that, the property does not speak of it
+                    ra = rng.choice([(P[0], P[1] - pq), (P[0], P[1] + pq), (P[0], P[1] - 2 * pq)])
+                    rb = rng.choice([(Q[0], Q[1] - pq), (Q[0], Q[1] + pq), (Q[0], Q[1])])
+                    props.append(f"prop.c17affine {d} {sint(ra[0])},{sint(ra[1])} {sint(rb[0])},{sint(rb[1])} {rng.randrange(0, 2 * n + 2)}")
             if P is None:
                 continue
             corr.append(f"ap.double {d} {P[0]},{P[1]}")
@@ -198,7 +212,15 @@ def run(ctx):
                 corr.append(f"ec.muladd {name} {pj} {sint(k1)} {qj} {sint(k2)}")
                 props.append(f"prop.c17muladd {name} {pj} {sint(k1)} {qj} {sint(k2)}")
             corr.append(f"ec.double {name} {rng.choice(reps)}")
-            corr.append(f"ap.mul {name} {n} {P[0]},{P[1]} {sint(rng.choice(edge_scalars(rng, n, 1)))}")
+            for k in edge_scalars(rng, n, 1):
+                if k >= 0:
+                    corr.append(f"ap.mul {name} {rng.choice([n, 0])} {P[0]},{P[1]} {sint(k)}")
+            for Q2 in (Q, P, (P[0], (-P[1]) % p)):
+                ra = rng.choice([(P[0], P[1] - p), (P[0], P[1] + p), (P[0], P[1])])
+                rb = rng.choice([(Q2[0], Q2[1] - p), (Q2[0], Q2[1] + p), (Q2[0], Q2[1])])
+                corr.append(f"ap.add {name} {sint(ra[0])},{sint(ra[1])} {sint(rb[0])},{sint(rb[1])}")
+                props.append(f"prop.c17affine {name} {sint(ra[0])},{sint(ra[1])} {sint(rb[0])},{sint(rb[1])} "
+                             f"{sint(rng.choice([k for k in edge_scalars(rng, n, 1) if k >= 0]))}")
         for i in range(per + 1):
             da, db = rng.randrange(1, n), rng.randrange(1, n)
             if i == 0:
